@@ -70,6 +70,14 @@ let () =
       run id Z0 (args_of hexargs)
     | id :: "O" :: t :: hexkey :: _ ->
       Printf.printf "%s\t%s\n" id (observe t.[0] (bytes_of_hex hexkey))
+    | id :: "T" :: hextables :: _ ->
+      (* table key counters: the number of stored keys per table *)
+      let parts = List.map (fun ht ->
+        let t = bytes_of_hex ht in
+        both (ht ^ "=:" ^ str_of_bytes (format_int (map_table_count t !ms)))
+             (ht ^ "=:" ^ str_of_bytes (format_int (spec_table_count t !ss))))
+        (if hextables = "" then [] else split_on ',' hextables) in
+      Printf.printf "%s\t%s\n" id (String.concat " " parts)
     | id :: "D" :: hexkeys :: _ ->
       let parts = List.concat (List.map (fun hk ->
         let key = bytes_of_hex hk in
